@@ -80,18 +80,23 @@ Definition kxp_empty (l : N) : N := N.shiftl (1023 + l) 52.
 
 Definition hip_bytes (i : image) : list N := u64 (i_kxp i) ++ u64 (i_hip i).
 
-(* serialize(): the writer tests !is_empty() (num_coupons != 0), the flags come from the compressed state *)
-Definition enc_image (i : image) : list N :=
+(* serialize(): the writer tests !is_empty() (num_coupons != 0), the flags come from the compressed state.
+   [opt b l] is a part written under condition b; the two HIP decision points of the code are the two [hip_bytes] *)
+Definition opt (b : bool) (l : list N) : list N := if b then l else [].
+
+Definition enc_body (i : image) : list N :=
   let hh := has_hip (i_flags i) in let ht := has_table (i_flags i) in let hw := has_window (i_flags i) in
-  [i_pre i; i_ser i; i_fam i; i_lgk i; i_fic i; i_flags i] ++ u16 (i_sh i) ++
-  (if i_nc i =? 0 then [] else
-     u32 (i_nc i) ++
-     (if ht && hw then u32 (i_tne i) ++ (if hh then hip_bytes i else []) else []) ++
-     (if ht then u32 (lenN (i_tab i)) else []) ++
-     (if hw then u32 (lenN (i_win i)) else []) ++
-     (if hh && negb (ht && hw) then hip_bytes i else []) ++
-     (if hw then flat_map u32 (i_win i) else []) ++
-     (if ht then flat_map u32 (i_tab i) else [])).
+  u32 (i_nc i) ++
+  opt (ht && hw) (u32 (i_tne i)) ++ opt (ht && hw && hh) (hip_bytes i) ++
+  opt ht (u32 (lenN (i_tab i))) ++ opt hw (u32 (lenN (i_win i))) ++
+  opt (hh && negb (ht && hw)) (hip_bytes i) ++
+  opt hw (flat_map u32 (i_win i)) ++ opt ht (flat_map u32 (i_tab i)).
+
+Definition enc_header8 (i : image) : list N :=
+  [i_pre i; i_ser i; i_fam i; i_lgk i; i_fic i; i_flags i] ++ u16 (i_sh i).
+
+Definition enc_image (i : image) : list N :=
+  enc_header8 i ++ (if i_nc i =? 0 then [] else enc_body i).
 
 (* has_table = compressed.table_data.size() > 0: compress_surprising_values sizes the buffer (at least one word) whenever it
    is called, i.e. always for SPARSE / HYBRID and for PINNED / SLIDING iff the surprising-value table is not empty;
